@@ -232,6 +232,10 @@ func runC07(c *Ctx) {
 	// request releases the packet manager's barrier twice (WaitGroup goes negative: panic) and a refused request is
 	// carried out after all
 	c.withOnly("R1", "R17", func() { runC02(c) })
+	// R18 (shared with C11.R1): handles are issued from a counter that only advances — a handle issued twice replaces
+	// a live table entry, whose object is then never closed, neither by CLOSE nor by the sweep when Serve returns
+	c.withOnly("R1", "R18", func() { runC11(c) })
+	checkWorkersAccountedFor(c, "R19")
 	// R13 (shared with C02.R0): a well-formed request of every type makePacket can build lands in a case of the os
 	// server's dispatcher that answers it; the default arm returns an error, which ends the command worker without a
 	// reply — with more requests in the stream Serve then waits for a worker that is gone
